@@ -39,7 +39,9 @@ class C08:
     TECHNIQUE = ("schedule enumeration under a harness-owned scheduler: every traced source line of the job thread as a "
                  "pre-emption point (sys.settrace), differential oracle against the un-pre-empted run; pairs of "
                  "pre-emptions sampled with Hypothesis")
-    RULE = ("a case is (transfer shape, job thread, pre-emption duration); inside it the baseline run counts the L source "
+    RULE = ("a case is (transfer shape, job thread, pre-emption duration) - shapes: broadcast, RTS/CTS with windows 1/2/all, two "
+            "transfers at once, RTS/CTS next to a broadcast, and (receiving role) a broadcast its originator abandoned whose T1 "
+            "expires 1 ms before the originator's next announcement arrives, on both data link layers; inside it the baseline run counts the L source "
             "lines the thread executes from submission to the horizon and then one run per k in 0..L-1 parks the thread at "
             "line k for the duration (exhaustive single pre-emption); Hypothesis additionally draws runs with two "
             "pre-emptions (same or different threads) and other latency lists; 'subruns' counts runs; non-trivial = a run "
@@ -74,8 +76,8 @@ class C08:
         return True
 
     def coverage_note(self, tier):
-        return ("exhaustive = every single pre-emption point (traced line) of both job threads for the 8 listed shapes "
-                "and 3 durations; double pre-emptions are sampled")
+        return ("exhaustive = every single pre-emption point (traced line) of both job threads for the %d listed shapes "
+                "and 3 durations; double pre-emptions are sampled" % len(shapes()))
 
     def _one_rx(self, p, pre, t_follow=None):
         """Shape bam_rx: node X (raw) announces a broadcast, sends its first packet and gives it up; the receive session of stack R
